@@ -178,6 +178,95 @@ func c14MovementCase(entries []string, kind string, unroll int) *Case {
 	return cs
 }
 
+// c14TwoMovesCase: two moves() in one script with the same steps and
+// independent symbolic multipliers at position mulAt: they share one
+// movement block exactly when their expansions are equal, and each command
+// refers to a block with its own expansion.
+func c14TwoMovesCase(stepNames []string, mulAt int, unroll int) *Case {
+	atoms := &AtomTable{Coded: true}
+	sname := atoms.New(ClsIdent, "script", "names")
+	var cmds, objs []*Atom
+	var mults []*Atom
+	var lines []string
+	for u := 0; u < 2; u++ {
+		c, o, m := atoms.New(ClsPlainCmd, "cmd", ""), atoms.New(ClsIdent, "obj", ""), atoms.New(ClsNum, "mult", "")
+		cmds, objs, mults = append(cmds, c), append(objs, o), append(mults, m)
+		var parts []string
+		for i, sn := range stepNames {
+			if i == mulAt {
+				parts = append(parts, sn+" * "+m.Placeholder())
+			} else {
+				parts = append(parts, sn)
+			}
+		}
+		lines = append(lines, c.Placeholder()+"("+o.Placeholder()+", moves("+strings.Join(parts, " ")+"))")
+	}
+	prog := &Program{Atoms: atoms, Tops: []interface{}{&Script{Name: sname, Body: []Stmt{&RawStmt{Text: lines[0]}, &RawStmt{Text: lines[1]}}}}}
+	cs := &Case{Name: fmt.Sprintf("c14/two-moves/%v/mult@%d", stepNames, mulAt), Prog: prog, Variants: optVariants[:1], NonTrivial: true,
+		Shape: c14Shape{Kind: "two-moves", Entries: append(append([]string{}, stepNames...), fmt.Sprintf("multiplier at %d", mulAt))}, MaxPaths: 2000}
+	cs.Setup = func(x *OracleCtx) {
+		x.C.MaxDecide = 2*(unroll+3) + 60
+		x.C.User["unroll"] = unroll
+	}
+	cs.Oracle = func(x *OracleCtx) *Violation {
+		res := x.Res["opt"]
+		if res.Err.Panic != "" {
+			return &Violation{Sub: "panic", Msg: res.Err.Panic}
+		}
+		var n [2]int64
+		for u := 0; u < 2; u++ {
+			t := mults[u].IntT
+			inRange := fmt.Sprintf("(and (>= %s 1) (<= %s 9999))", t, t)
+			if x.C.Valid(inRange) != interp.Unsat {
+				if x.C.Check(inRange) == interp.Unsat {
+					if !res.Err.IsErr {
+						return &Violation{Sub: "multiplier", Msg: "a multiplier outside 1..9999 was accepted"}
+					}
+					return nil
+				}
+				panic(interp.Inconclusive{Msg: "multiplier range not decided on this path"})
+			}
+			k, ok := uniqueInt(x.C, t)
+			if !ok {
+				if res.Err.IsErr {
+					return &Violation{Sub: "multiplier", Query: inRange, Msg: "a multiplier inside 1..9999 was rejected: " + interp.ToString(res.Err.Msg)}
+				}
+				panic(interp.Inconclusive{Msg: "multiplier not determined by the path condition"})
+			}
+			n[u] = k
+		}
+		if res.Err.IsErr {
+			return &Violation{Sub: "accept", Msg: "well-formed moves() were rejected: " + interp.ToString(res.Err.Msg)}
+		}
+		block := func(k int64) []interp.Value {
+			var b []interp.Value
+			for i, sn := range stepNames {
+				c := int64(1)
+				if i == mulAt {
+					c = k
+				}
+				for j := int64(0); j < c; j++ {
+					b = append(b, "\t"+sn)
+				}
+			}
+			return append(b, "\tstep_end")
+		}
+		l0, l1 := cat(sname.Val, "_Movement_0"), cat(sname.Val, "_Movement_1")
+		second := l1
+		if n[0] == n[1] {
+			second = l0
+		}
+		want := []interp.Value{cat(sname.Val, "::"), cat("\t", cmds[0].Val, " ", objs[0].Val, ", ", l0), cat("\t", cmds[1].Val, " ", objs[1].Val, ", ", second), "\treturn", cat(l0, ":")}
+		want = append(want, block(n[0])...)
+		if n[0] != n[1] {
+			want = append(want, cat(l1, ":"))
+			want = append(want, block(n[1])...)
+		}
+		return expectLines(x, "movement", fmt.Sprintf("two moves() with multipliers %d and %d", n[0], n[1]), nonBlank(outputLines(res.Out, false)), want)
+	}
+	return cs
+}
+
 func c14MartCase(entries []string, withConst bool) *Case {
 	atoms := &AtomTable{Coded: true}
 	name := atoms.New(ClsIdent, "mart", "names")
@@ -260,6 +349,12 @@ func RunC14(env *Env, rep *Report) {
 			cases = append(cases, c14MartCase(l, true))
 		}
 	}
+	for _, tm := range []struct {
+		steps []string
+		at    int
+	}{{[]string{"walk_a"}, 0}, {[]string{"walk_a", "walk_b"}, 1}, {[]string{"walk_a", "walk_b"}, 0}, {[]string{"walk_a", "walk_b", "walk_a"}, 2}} {
+		cases = append(cases, c14TwoMovesCase(tm.steps, tm.at, 3))
+	}
 	for _, kind := range []string{"movement", "mart", "moves"} {
 		for _, sel := range []string{"empty-brace", "two-brace", "one-colon", "fallback", "terminator-colon"} {
 			if kind == "moves" && (sel == "empty-brace" || sel == "two-brace") {
@@ -269,7 +364,7 @@ func RunC14(env *Env, rep *Report) {
 		}
 	}
 	rep.Technique = "symbolic execution of the real movement/mart parsers and emitters (go/ssa) with symbolic step/item names and symbolic multipliers; accept/reject boundary and copy counts decided by the solver over the integers (z3)"
-	rep.Explanation = "Bounded symbolic verification, not a proof. Every step / item list up to the length bound (entries: step, step with comma, 'step * N', an explicit terminator) in a movement statement, in moves() and in a mart (with and without a constant whose value may be the terminator) is compiled by symbolic execution of the real code. Step and item names are symbolic (whether a name equals step_end / ITEM_NONE is a solver-decided fork), and every multiplier N is an unconstrained symbolic integer: the comparisons N<=0 and N>9999 and the expansion loop's trip count are decisions over N, so the accept/reject boundary is decided for ALL integers and the copy count for N up to the unrolling bound (paths needing more iterations are cut and counted as beyond the bound). Asserted per path: error iff some multiplier is outside 1..9999; otherwise exactly N copies in source order, nothing after the first terminator, exactly one terminator, '.align 2' and '.2byte' form for marts."
+	rep.Explanation = "Bounded symbolic verification, not a proof. Every step / item list up to the length bound (entries: step, step with comma, 'step * N', an explicit terminator) in a movement statement, in moves() and in a mart (with and without a constant whose value may be the terminator) is compiled by symbolic execution of the real code; so are scripts with two moves() that have the same steps and independent symbolic multipliers (they must share one block exactly when their expansions are equal). Step and item names are symbolic (whether a name equals step_end / ITEM_NONE is a solver-decided fork), and every multiplier N is an unconstrained symbolic integer: the comparisons N<=0 and N>9999 and the expansion loop's trip count are decisions over N, so the accept/reject boundary is decided for ALL integers and the copy count for N up to the unrolling bound (paths needing more iterations are cut and counted as beyond the bound). Asserted per path: error iff some multiplier is outside 1..9999; otherwise exactly N copies in source order, nothing after the first terminator, exactly one terminator, '.align 2' and '.2byte' form for marts."
 	rep.Bounds = map[string]interface{}{"max_list_length": maxLen, "multiplier_unroll": unroll, "max_multipliers_per_list": map[string]int{"quick": 1, "thorough": 2}[env.Tier], "cases": len(cases)}
 	rep.Outside = []string{"copy counts above the unrolling bound (65..9999 in the thorough tier)", "longer lists", "poryswitch-selected parts (C12)", "hex / non-canonical multiplier spellings"}
 	rep.Assumptions = []string{"step and item names are identifiers other than keywords", "multipliers are canonical decimal integers inside (-10^12, 10^12)"}
